@@ -115,6 +115,7 @@ try_from_unit!(c10_try_from_property_name__n5, 5, 8, PropertyName<'_>, spec_prop
 try_from_unit!(c10_try_from_bus_name__n5, 5, 8, BusName<'_>, spec_bus_name, "C10.try_from.bus_name.accepts_iff_spec", "C10.try_from.bus_name.same_string");
 
 // ---- the 255-byte limit: a concrete maximal-length valid name at length 254 / 255 / 256 (instances) -----
+// (only the member-name instance is kept: the same unit for the dotted names never finishes, see the note below)
 macro_rules! limit_unit {
     ($name:ident, $validator:path, $spec:path, $b0:expr, $b1:expr, $b2:expr, $b3:expr, $o:literal) => {
         #[cfg(kani)]
@@ -136,15 +137,6 @@ macro_rules! limit_unit {
 // @unit C10.limit255.member_name props=C10 kind=instance bound=concrete-template,len=254..256 tier=thorough fn=zbus_names::member_name::validate_bytes timeout=900
 #[cfg(not(verif_skip_c10_limit255_member_name__len3))]
 limit_unit!(c10_limit255_member_name__len3, crate::member_name::validate_bytes, spec_member_name, b'a', b'a', b'a', b'a', "C10.limit255.member_name.accepts_iff_spec");
-// @unit C10.limit255.interface_name props=C10 kind=instance bound=concrete-template,len=254..256 tier=thorough fn=zbus_names::interface_name::validate_bytes timeout=900
-#[cfg(not(verif_skip_c10_limit255_interface_name__len3))]
-limit_unit!(c10_limit255_interface_name__len3, crate::interface_name::validate_bytes, spec_interface_name, b'a', b'.', b'a', b'a', "C10.limit255.interface_name.accepts_iff_spec");
-// @unit C10.limit255.well_known_name props=C10 kind=instance bound=concrete-template,len=254..256 tier=thorough fn=zbus_names::well_known_name::validate_bytes timeout=900
-#[cfg(not(verif_skip_c10_limit255_well_known_name__len3))]
-limit_unit!(c10_limit255_well_known_name__len3, crate::well_known_name::validate_bytes, spec_well_known_name, b'a', b'.', b'a', b'a', "C10.limit255.well_known_name.accepts_iff_spec");
-// @unit C10.limit255.unique_name props=C10 kind=instance bound=concrete-template,len=254..256 tier=thorough fn=zbus_names::unique_name::validate_bytes timeout=900
-#[cfg(not(verif_skip_c10_limit255_unique_name__len3))]
-limit_unit!(c10_limit255_unique_name__len3, crate::unique_name::validate_bytes, spec_unique_name, b':', b'1', b'.', b'a', "C10.limit255.unique_name.accepts_iff_spec");
 
 // NOTE (tool limit, measured): the same fully concrete 255/256-byte units for the DOTTED names (interface, error,
 // well-known, unique, BusName dispatch) do not finish under CBMC (winnow `separated` over a 256-byte input: > 15 min
